@@ -551,6 +551,16 @@ impl<T: Valid> Valid for Vec<T> {
     }
 }
 
+/// Upper bound, in bytes, on what a deserializer pre-allocates on the word of a length
+/// prefix. The prefix comes from untrusted input, so the buffer is only pre-sized up to
+/// this bound and grows as elements are actually read.
+const MAX_PREALLOCATION_BYTES: usize = 4096;
+
+#[inline]
+fn capped_capacity<T>(len: usize) -> usize {
+    len.min(MAX_PREALLOCATION_BYTES / core::mem::size_of::<T>().max(1))
+}
+
 impl<T: CanonicalDeserialize> CanonicalDeserialize for Vec<T> {
     #[inline]
     fn deserialize_with_mode<R: Read>(
@@ -558,10 +568,10 @@ impl<T: CanonicalDeserialize> CanonicalDeserialize for Vec<T> {
         compress: Compress,
         validate: Validate,
     ) -> Result<Self, SerializationError> {
-        let len = u64::deserialize_with_mode(&mut reader, compress, validate)?
+        let len: usize = u64::deserialize_with_mode(&mut reader, compress, validate)?
             .try_into()
             .map_err(|_| SerializationError::NotEnoughSpace)?;
-        let mut values = Self::with_capacity(len);
+        let mut values = Self::with_capacity(capped_capacity::<T>(len));
         for _ in 0..len {
             values.push(T::deserialize_with_mode(
                 &mut reader,
@@ -655,10 +665,10 @@ impl<T: CanonicalDeserialize> CanonicalDeserialize for VecDeque<T> {
         compress: Compress,
         validate: Validate,
     ) -> Result<Self, SerializationError> {
-        let len = u64::deserialize_with_mode(&mut reader, compress, validate)?
+        let len: usize = u64::deserialize_with_mode(&mut reader, compress, validate)?
             .try_into()
             .map_err(|_| SerializationError::NotEnoughSpace)?;
-        let mut values = Self::with_capacity(len);
+        let mut values = Self::with_capacity(capped_capacity::<T>(len));
         for _ in 0..len {
             values.push_back(T::deserialize_with_mode(
                 &mut reader,
